@@ -199,7 +199,10 @@ def _one(rng, kind):
             np2 = case["nparent"]
             if s2["uniq"] and np2 > n: np2 = n
             s2["nparent"] = np2
-            s2["x"] = _ohv_x(rng, case["cls"], len(_xmap(n, np2, s2["uniq"])), ncross)
+            ncfg2 = len(_xmap(n, np2, s2["uniq"]))
+            if case["cls"] == "Subset" and ncross > ncfg2:             # the subset problem needs at least ncross configurations in both states
+                ncross = ncfg2; case["ncross"] = ncross; case["x"] = _ohv_x(rng, case["cls"], ncfg, ncross)
+            s2["x"] = _ohv_x(rng, case["cls"], ncfg2, ncross)
             s2["nhap"] = max(1, s2["nhap"]); case["nhap"] = max(1, case["nhap"])   # the protocol's own argument check rejects 0 blocks
             case["session"] = s2
     elif kind == "opv":
